@@ -267,6 +267,19 @@ theorem dekker_product (q : QFmt) (r : ℚ → ℚ) (hr : IsRN q r) (f : Fmt) (c
     evalQ f r (mulDekker cb) mulDekkerOuts [x, y] = some [r (x * y), x * y - r (x * y)] :=
   EFT.mulDekker_prog hr f cb hC h2s h2s2 hs2 hkx1 hkx2 hky1 hky2 hex hey he x y hx hy
 
+/-- **Dekker's product with subnormal operands**: the operands only have to be representable (on the 2^emin
+lattice); written in normalised form kx·2^ex, ky·2^ey the exponents may lie BELOW emin (a subnormal operand), and
+the single remaining condition is the documented one, ex + ey ≥ emin (the error term x·y − RN(x·y) is representable). -/
+theorem dekker_product_subnormal_operands (q : QFmt) (r : ℚ → ℚ) (hr : IsRN q r) (f : Fmt) (cb : Nat) (s : ℕ)
+    (hC : (decode f cb).toRat? = some (2 ^ s + 1)) (h2s : q.p ≤ 2 * s) (h2s2 : 2 * s ≤ q.p + 2) (hs2 : s + 2 ≤ q.p)
+    (kx ky ex ey : ℤ) (hkx1 : 2 ^ (q.p - 1) ≤ |kx|) (hkx2 : |kx| < 2 ^ q.p) (hky1 : 2 ^ (q.p - 1) ≤ |ky|) (hky2 : |ky| < 2 ^ q.p)
+    (he : q.emin ≤ ex + ey) (x y : ℚ) (hx : x = (kx : ℚ) * 2 ^ ex) (hy : y = (ky : ℚ) * 2 ^ ey)
+    (hxr : Rep q x) (hyr : Rep q y) :
+    evalQ f r (mulDekker cb) mulDekkerOuts [x, y] = some [r (x * y), x * y - r (x * y)] := by
+  have hxm : Mult q.emin x := by obtain ⟨m, e, h, _, h2⟩ := hxr; rw [h]; exact Mult.mono h2 ⟨m, rfl⟩
+  have hym : Mult q.emin y := by obtain ⟨m, e, h, _, h2⟩ := hyr; rw [h]; exact Mult.mono h2 ⟨m, rfl⟩
+  exact EFT.mulDekker_prog_all hr f cb hC h2s h2s2 hs2 hkx1 hkx2 hky1 hky2 he x y hx hy hxm hym
+
 /-- `utils.multiply_dekker` and `utils.square_dekker`: the same. -/
 theorem dekker_product_utils (q : QFmt) (r : ℚ → ℚ) (hr : IsRN q r) (f : Fmt) (cb : Nat) (s : ℕ)
     (hC : (decode f cb).toRat? = some (2 ^ s + 1)) (h2s : q.p ≤ 2 * s) (h2s2 : 2 * s ≤ q.p + 2) (hs2 : s + 2 ≤ q.p)
